@@ -53,8 +53,15 @@ class C19(Check):
             out += [("scan", i, k, m) for i in range(len(frs))]
         out += [("cli", i) for i in range(4)]
         out += [("keyeq", i) for i in range(len(self.frag_keyeq()))]
+        out += [("bigcoord", i) for i in range(len(self.frag_big()))]
         out.append(("clifiles",))
         return out
+
+    @staticmethod
+    def frag_big():
+        """intervals whose ends sit on and next to multiples of 2^16 (block sizes hidden in an implementation)"""
+        pts = [1, 65535, 65536, 65537, 131071, 131072, 131073]
+        return [("a", a, b, 1) for a in pts for b in pts if a <= b]
 
     @staticmethod
     def frag_keyeq():
@@ -284,6 +291,12 @@ class C19(Check):
             ctx.sample({"scan": "three fragments over contig names ctg_1 / ctg_01 / ctg_I (equal natural-sort keys)"})
         elif kind == "clifiles":
             self.check_cli_files(ctx)
+        elif kind == "bigcoord":
+            frs = self.frag_big()
+            for other in frs:
+                self.check_scan((frs[shard[1]], other), ctx)
+                self.check_scan((frs[shard[1]], ("b", 1, 70000, 1), other), ctx)
+            ctx.sample({"scan": "intervals with ends in {1, 2^16-1, 2^16, 2^16+1, 2^17-1, 2^17, 2^17+1}"})
 
     def check_cli_files(self, ctx, only=None):
         """several input files in one asm-format --qc-overlaps invocation: same file name in different directories, --name"""
@@ -363,4 +376,4 @@ class C19(Check):
 
 CHECK = C19()
 # scope added in later rounds, kept in the evidence text
-CHECK.rule += ' Scan over contig names with equal natural-sort keys (ctg_1, ctg_01, ctg_I). CLI with 2-3 input files per invocation (same file name in different directories, distinct names, --name): stderr lists the pairs of every file.'
+CHECK.rule += ' Scan over contig names with equal natural-sort keys (ctg_1, ctg_01, ctg_I). Scan over intervals whose ends are on and next to 2^16 and 2^17. CLI with 2-3 input files per invocation (same file name in different directories, distinct names, --name): stderr lists the pairs of every file.'
